@@ -60,6 +60,12 @@ func init() {
 			fv.storeAddr(st, a, fv.mode.litI(1, 32))
 			return Val{T: types.Typ[types.Bool], S: "(= " + old + " " + fv.mode.litI(1, 32) + ")"}
 		}, writes: func(fv *FnVerifier) []string { return nil }})
+		add("(*"+atomicPkg+".Flag).Toggle", model{apply: func(fv *FnVerifier, c *ssa.CallCommon, args []Val, st *State, pos token.Pos, name string) Val {
+			a := fv.flagValueAddr(args[0], c.Args[0].Type())
+			fv.frameCheck(st, a, pos)
+			fv.storeAddr(st, a, "(ite "+args[1].S+" "+fv.mode.litI(1, 32)+" "+fv.mode.litI(0, 32)+")")
+			return Val{}
+		}, writes: func(fv *FnVerifier) []string { return nil }})
 	})
 }
 
